@@ -299,7 +299,23 @@ impl C13 {
         }
         if s.out.is_ok() {
             let evs = parse_events(s.out, &w.pm).unwrap_or_default();
-            let delivered = evs.iter().find_map(|e| if let PoolEv::RouteSummary { return_amount, .. } = e { Some(*return_amount) } else { None });
+            // what the receiver ends up with (the route summary event is only a cross-check)
+            let (sender_addr, recv_opt) = match s.op {
+                Op::Pm { sender, msg: pm::ExecuteMsg::ExecuteSwapOperations { receiver, .. }, .. } => (sender.clone(), receiver.clone()),
+                _ => return,
+            };
+            // an unparsable receiver falls back to the sender (helper validate_addr_or_default)
+            let recv = cosmwasm_std::Addr::unchecked(crate::props::c04::resolve_receiver(w, &recv_opt, &sender_addr));
+            let pm::SwapOperation::MantraSwap { token_out_denom, .. } = operations.last().unwrap();
+            let delta_of = |pre: u128, post: u128| -> Option<u128> {
+                let paid_in = if recv == sender_addr && &funds[0].denom == token_out_denom { funds[0].amount.u128() } else { 0 };
+                (post + paid_in).checked_sub(pre)
+            };
+            let by_balance = delta_of(s.pre.bal(&recv, token_out_denom), s.post.bal(&recv, token_out_denom));
+            let by_event = evs.iter().find_map(|e| if let PoolEv::RouteSummary { return_amount, .. } = e { Some(*return_amount) } else { None });
+            // receivers the harness does not track (the fee collector gets protocol fees too): fall back to the event
+            let tracked = recv != w.fc && recv != w.pm;
+            let delivered = if tracked { by_balance } else { by_event };
             if let (Some(min), Some(d)) = (minimum_receive, delivered) {
                 if d >= min.u128() {
                     rep.held("minimum_receive", hash_of(&("ok", operations.len(), mag(min.u128()))), || json!({"hops": operations.len(), "minimum_receive": min.to_string(), "delivered": d.to_string()}));
@@ -327,7 +343,7 @@ impl C13 {
                     });
                     let abs = hash_of(&("exact", operations.len(), revisits, want_ok, mag(d)));
                     if want_ok {
-                        let d2 = parse_events(&out, &w.pm).unwrap_or_default().iter().find_map(|e| if let PoolEv::RouteSummary { return_amount, .. } = e { Some(*return_amount) } else { None });
+                        let d2 = if tracked { delta_of(s.pre.bal(&recv, token_out_denom), w.balance(&recv, token_out_denom)) } else { parse_events(&out, &w.pm).unwrap_or_default().iter().find_map(|e| if let PoolEv::RouteSummary { return_amount, .. } = e { Some(*return_amount) } else { None }) };
                         if out.is_ok() && d2 == Some(d) {
                             rep.held("minimum_receive", abs, || json!({"hops": operations.len(), "revisits_a_pool": revisits, "delivers": d.to_string(), "minimum_receive": d.to_string(), "result": "executed"}));
                         } else {
